@@ -156,6 +156,10 @@ def materialise(scn, d, scheme='structural', name_tables=False):
     conf = mapping_config(d, d / 'q.h5ad', d / 'stats.h5', d / 'm.json', cfg)
     if cfg.get('drop') is not None:
         conf['drop_level'] = nm.level(cfg['drop'])
+    if cfg.get('flookup'):
+        # per-level bootstrap factors: list of [level name or 'None', factor]
+        conf['type_assignment']['bootstrap_factor_lookup'] = [
+            ['None' if int(k) == 0 else nm.level(int(k)), v[0] / v[1]] for k, v in sorted(cfg['flookup'].items())]
     return conf
 
 
